@@ -13,12 +13,16 @@
 //   S  <f|t> <n> <oracle>              util::FSyncOrThrow / util::ResizeOrThrow(n) -> <status> - <calls>
 //   FS <bufsize> <oracle> <op,op,..>   util::FileStream: w<hex> write, a<dec> uint16, b<dec> uint32, c<dec> uint64, p<hex byte> put, f flush;
 //                                      then the destructor                      -> <status> <bytes in file> <calls>
+//   SN <file> <oracle>                 util::ReadCompressed(fd), then ONE Read(buf, 64): for uncompressed input that returns exactly the
+//                                      header bytes ReadFactory sniffed for DetectMagic              -> <status> <header bytes> <calls>
+//   RC <file> <oracle>                 util::ReadCompressed(fd), Read() until 0 (gz / bz2 / xz / plain) -> <status> <decompressed bytes> <calls>
 //   K                                  constants: kToStringMaxBytes and the kBytes of uint16/32/64
 // bytes are hex ("-" = empty); oracle = comma separated d<N> | i | f<errno> ("-" = empty).
 // status: ok | fd:<errno> | eof | nooracle | abort | died:<signal>
 #include "util/exception.hh"
 #include "util/file.hh"
 #include "util/file_stream.hh"
+#include "util/read_compressed.hh"
 
 #include <cerrno>
 #include <cstdio>
@@ -132,6 +136,8 @@ template <class F> std::string Status(F f, int &consumed) {
     std::ostringstream s;
     s << "fd:" << e.Error();
     st = s.str();
+  } catch (const util::Exception &) {
+    st = "exc";                        // e.g. a decompressor complaining about the data
   } catch (const std::exception &e) {
     st = std::string("other:") + typeid(e).name();
   }
@@ -166,6 +172,16 @@ struct PWriteCase {
 struct SingleCase {
   int fd; char kind; uint64_t n;
   void operator()() const { if (kind == 'f') util::FSyncOrThrow(fd); else util::ResizeOrThrow(fd, n); }
+};
+struct CompressedCase {
+  int fd; bool all; std::string &out;
+  void operator()() const {
+    util::ReadCompressed rc(fd);      // takes ownership of fd
+    char buf[4096];
+    if (!all) { out.assign(buf, rc.Read(buf, 64)); return; }
+    std::size_t got;
+    while ((got = rc.Read(buf, sizeof buf))) out.append(buf, got);
+  }
 };
 struct StreamCase {
   int fd; std::size_t bufsize; const std::vector<std::string> &ops;
@@ -236,6 +252,15 @@ void RunCase(const std::string &line) {
     PWriteCase c = {g_fd, d, off};
     std::string st = Status(c, consumed);
     out << st << " " << Hex(Slurp(g_fd)) << " " << shim_transferred() << " " << Calls(consumed);
+  } else if (kind == "SN" || kind == "RC") {
+    std::string file, oracle;
+    in >> file >> oracle;
+    g_fd = MakeFile(Unhex(file));
+    std::string got;
+    shim_arm(g_fd, Script(oracle).c_str());
+    CompressedCase c = {g_fd, kind == "RC", got};
+    std::string st = Status(c, consumed);
+    out << st << " " << Hex(got) << " " << Calls(consumed);
   } else if (kind == "S") {
     std::string k, oracle; uint64_t n;
     in >> k >> n >> oracle;
